@@ -139,7 +139,11 @@ pub fn check(rep: &mut Report, f: &(&str, &str, bool, &str, usize), ccy: &str, a
         if !plain_decimal(&out_amt) || canon_dec(&out_amt) != canon_dec(a) {
             // a whole number below 10^15 (< 2^53) is held exactly by an f64 and printed exactly by {:.N}: a change there is not the representation limit
             let exactly_held = sig_dec == 0 && digits <= 15;
-            let class = if exactly_held { "whole-number".to_string() } else if digits > 15 || int_digits + printed_dec > 15 { "f64-precision".to_string() } else if name == "36" { "rate-format".into() } else { format!("decimals={}", sig_dec.min(6)) };
+            // the decimals that HAVE to be printed (the currency's / two for 19 and 61 / four for 37H / as written), not the ones
+            // the serialiser happened to print: a serialiser that prints too many must not talk itself into the f64 excuse
+            let due_dec = if name == "36" { sig_dec } else if name.starts_with("37") { sig_dec.max(4) } else { sig_dec.max(prec.unwrap_or(2)) };
+            let _ = printed_dec;
+            let class = if exactly_held { "whole-number".to_string() } else if digits > 15 || int_digits + due_dec > 15 { "f64-precision".to_string() } else if name == "36" { "rate-format".into() } else { format!("decimals={}", sig_dec.min(6)) };
             rep.fail(&format!("value_changed|Field{name}|{class}"), json!({"field": fname, "currency": ccy, "amount": a, "content_hex": hex(&content), "serialised": ser, "why": "serialising changes the numeric value"}));
         } else if p.reparse_same != Some(true) {
             rep.fail(&format!("unstable_roundtrip|Field{name}|amount"), w("re-parsing the serialised field gives another value"));
@@ -212,6 +216,20 @@ pub fn run(o: &Opts) -> Report {
             // whole amounts around 2^53 minor units (exactly representable; must be printed back exactly)
             for s in ["999999999999999", "987654321098765", "90071992547410", "90071992547411", "9007199254742", "900719925475", "123456789012345"] {
                 check(&mut rep, f, ccy, s);
+            }
+            // the top of the exact region: as many integer digits as leave room for the printed decimals within 15 digits, leading
+            // digit 9 (above 2^43 an f64 is spaced wider than 0,001: a serialiser that prints one decimal too many shows noise there),
+            // with one decimal and with all the decimals the field prints
+            if !["36", "37H", "37Hn"].contains(&f.0) {
+                let printed = if f.2 { iso_decimals(ccy) } else { 2 };
+                let int_d = 15 - printed;
+                for k in 0..(if o.thorough() { 40 } else { 8 }) {
+                    let int: String = (0..int_d).map(|i| if i == 0 { '9' } else { char::from(b'0' + rng.below(10) as u8) }).collect();
+                    let dec = if printed == 0 { 0 } else if k % 2 == 0 { printed } else { 1 };
+                    let frac: String = (0..dec).map(|i| if i + 1 == dec { char::from(b'1' + rng.below(9) as u8) } else { char::from(b'0' + rng.below(10) as u8) }).collect();
+                    let a = if dec == 0 { int.clone() } else { format!("{int},{frac}") };
+                    check(&mut rep, f, ccy, &a);
+                }
             }
             // decimals 0..5 x magnitudes 0..15 (+2 beyond the limit)
             for dec in 0..=5usize {
